@@ -336,3 +336,5 @@ PROPS['C10']['text'] += ' R11: every replica starts from a clone of the start st
 PROPS['C06']['text'] += (' R5 also: inside the proposal loop the compared score never falls back to a value computed before the loop. R3 also: '
                          'reset_value writes the cell on every feasible path for witness pairs (cell, captured value) down to one unit in the last place.')
 PROPS['C03']['text'] += ' R2 also: the inner sequence of the in-cell pair loop is not a partly consumed iterator shared between outer items.'
+PROPS['C06']['text'] += ' A set_sampled that writes the cell itself instead of calling set_value is decided by value (one write to its own cell, the undo field captured before it, the stored value is the clamped sample on eight witness points).'
+PROPS['C08']['text'] += ' R2 also covers a set_sampled that clamps and writes on its own account (by value, eight witness points).'
